@@ -1,2 +1,72 @@
--- stub: driver for C12 not written yet
-def main : IO Unit := pure ()
+import CMacVerif.Model.Lifecycle
+import CMacVerif.Gen.Lifecycle
+import CMacVerif.Util.Bits
+/-!
+Driver for C12: the model's allocation trace of one owner for one option vector.
+
+op line:   `<unit> <n> <bits>`      unit ∈ lom | tm | tbis | rhd, n = number of elements given to
+                                   vector fields (not used by the model), bits = option vector as
+                                   a string of 0/1 in the order of the generated `opts` (`-` = none)
+answer:    `<unit> after=<kinds> owned=<f.f.f> dtor=<events> end=<kinds> #<tags>`
+  kinds : one character per field after the constructor / at the end: u n o f
+  owned : the fields that own an allocation after the constructor, in allocation order
+  dtor  : what the destructor does, in order: F<f> free, D<f> double free, W<f> uninitialised
+          pointer read, N<f> null dereference, U<f> use after free, L<f> allocation lost
+-/
+open CMacVerif CMacVerif.Util CMacVerif.Lifecycle
+
+def kindChar : PState → Char
+  | .uninit => 'u'
+  | .null => 'n'
+  | .owned _ => 'o'
+  | .freed _ => 'f'
+
+def kinds (s : St) (n : Nat) : String :=
+  String.ofList ((List.range n).map (fun f => kindChar (s.ptr f)))
+
+def evStr : Event → Option String
+  | .alloc _ _ => none
+  | .delNull _ => none
+  | .free f _ => some s!"F{f}"
+  | .dfree f _ => some s!"D{f}"
+  | .wild f => some s!"W{f}"
+  | .nullUse f => some s!"N{f}"
+  | .danglingUse f _ => some s!"U{f}"
+  | .lost f _ => some s!"L{f}"
+
+/-- fields owning an allocation, ordered by allocation number (insertion sort on few elements) -/
+def ownedInOrder (s : St) (n : Nat) : List Nat :=
+  let l := (List.range n).filterMap (fun f => match s.ptr f with | .owned k => some (k, f) | _ => none)
+  let ins (x : Nat × Nat) (acc : List (Nat × Nat)) : List (Nat × Nat) :=
+    (acc.filter (fun y => y.1 < x.1)) ++ [x] ++ (acc.filter (fun y => ¬ (y.1 < x.1)))
+  (l.foldl (fun acc x => ins x acc) []).map (·.2)
+
+def unitOf : String → Option ClassDesc
+  | "lom" => some Gen.Lifecycle.liveOutputManager
+  | "tm" => some Gen.Lifecycle.trackerManager
+  | "tbis" => some Gen.Lifecycle.taskBasedIonizationSimulation
+  | "rhd" => some Gen.Lifecycle.rhdSimulation
+  | _ => none
+
+def countEv (l : List Event) (p : Event → Bool) : Nat := (l.filter p).length
+
+def step (_ : Unit) : List String → Unit × String
+  | u :: _n :: bits :: _ =>
+    match unitOf u with
+    | none => ((), "bad-unit")
+    | some d =>
+      let bl := bits.toList
+      let env : Env := fun o => bl.getD o '0' == '1'
+      let nf := d.fields.length
+      let s1 := exec env d.ctor St.init
+      let s2 := exec env d.dtor s1
+      let ctorEv := s1.log.filterMap evStr
+      let dtorEv := (s2.log.drop s1.log.length).filterMap evStr
+      let owned := ".".intercalate ((ownedInOrder s1 nf).map toString)
+      let nDelNull := countEv s2.log (fun e => match e with | .delNull _ => true | _ => false)
+      let nFree := countEv s2.log (fun e => match e with | .free _ _ => true | _ => false)
+      let nAlloc := countEv s2.log (fun e => match e with | .alloc _ _ => true | _ => false)
+      ((), s!"{u} after={kinds s1 nf} owned={owned} ctor={".".intercalate ctorEv} dtor={".".intercalate dtorEv} end={kinds s2 nf} #alloc={nAlloc},free={nFree},delnull={nDelNull}")
+  | _ => ((), "bad-op")
+
+def main : IO Unit := runDriver step ()
